@@ -105,7 +105,7 @@ T = {
  "C20-r2-shared-param-tuple-per-expectation": ("C20", "two calls with different arguments on one coroutine expectation, a clause naming _N evaluated after the later call", "C20 (after reference-parameter sites were added to engine Q)"),
 }
 logs = ""
-for f in sorted(glob.glob(os.path.join(V, "build", "scratch", "seeds*.log"))):
+for f in sorted(glob.glob(os.path.join(V, "build", "scratch", "seeds*.log")), key=lambda x: int(re.sub(r"\D", "", os.path.basename(x)) or 0)):   # in the order they were run
     logs += open(f, errors="replace").read()
 for name, (prop, needs, caught) in T.items():
     d = os.path.join(V, "seeded", name)
